@@ -153,8 +153,55 @@ fn matches_known<'a>(known: &'a [KnownFinding], i: &IssueRec) -> Option<&'a Know
 // ------------------------------------------------------------------------------------------------
 // worker
 
+// Watchdog (liveness): a case which does not return within a wall-clock budget several orders of magnitude above the
+// normal cost of a case is a livelock / unbounded piece of work inside the code under test. The worker reports the
+// case in a side file and leaves; the coordinator turns it into a violation ("no-return") and restarts the slice.
+static WATCH_CASE: std::sync::atomic::AtomicU64 = std::sync::atomic::AtomicU64::new(u64::MAX);
+static WATCH_SEED: std::sync::atomic::AtomicU64 = std::sync::atomic::AtomicU64::new(0);
+static WATCH_START_NS: std::sync::atomic::AtomicU64 = std::sync::atomic::AtomicU64::new(0);
+
+pub fn case_limit_s(tier: Tier) -> u64 {
+    std::env::var("VSIM_CASE_LIMIT_S").ok().and_then(|s| s.parse().ok()).unwrap_or(match tier {
+        Tier::Quick => 120,
+        Tier::Thorough => 900,
+    })
+}
+
+/// Starts the watchdog thread; `on_hang(case index, case seed, seconds)` runs on that thread and must not return.
+pub fn start_watchdog(limit_s: u64, on_hang: impl Fn(u64, u64, u64) + Send + 'static) {
+    use std::sync::atomic::Ordering::SeqCst;
+    std::thread::spawn(move || loop {
+        std::thread::sleep(std::time::Duration::from_millis(500));
+        let case = WATCH_CASE.load(SeqCst);
+        if case != u64::MAX {
+            let elapsed = sys::real_now_ns().saturating_sub(WATCH_START_NS.load(SeqCst)) / 1_000_000_000;
+            if elapsed > limit_s && WATCH_CASE.load(SeqCst) == case {
+                on_hang(case, WATCH_SEED.load(SeqCst), elapsed);
+                unsafe { libc::_exit(4) };
+            }
+        }
+    });
+}
+
+pub fn watch_begin(case: u64, seed: u64) {
+    use std::sync::atomic::Ordering::SeqCst;
+    WATCH_SEED.store(seed, SeqCst);
+    WATCH_START_NS.store(sys::real_now_ns(), SeqCst);
+    WATCH_CASE.store(case, SeqCst);
+}
+
+pub fn watch_end() {
+    WATCH_CASE.store(u64::MAX, std::sync::atomic::Ordering::SeqCst);
+}
+
 pub fn worker_main(scn: &dyn Scenario, tier: Tier, batch_seed: u64, slice: u64, slices: u64, total: u64, out: &str, rechecks: &[u64], deadline_s: u64) {
     let mut file = std::io::BufWriter::new(std::fs::File::create(out).expect("cannot create worker output"));
+    {
+        let hung_path = format!("{out}.hung");
+        start_watchdog(case_limit_s(tier), move |case, seed, secs| {
+            let _ = std::fs::write(&hung_path, json!({"hung_at": case, "seed": seed, "after_s": secs}).to_string());
+        });
+    }
     let t0 = sys::real_now_ns();
     let mut done = 0u64;
     let mut i = slice;
@@ -165,7 +212,10 @@ pub fn worker_main(scn: &dyn Scenario, tier: Tier, batch_seed: u64, slice: u64, 
             break;
         }
         let seed = case_seed(batch_seed, i);
+        file.flush().unwrap();
+        watch_begin(i, seed);
         let rec = scn.run_case(seed, tier);
+        watch_end();
         let tainted = rec.taint;
         writeln!(file, "{}", rec.to_json(i, seed)).unwrap();
         done += 1;
@@ -180,7 +230,10 @@ pub fn worker_main(scn: &dyn Scenario, tier: Tier, batch_seed: u64, slice: u64, 
     if !timed_out {
         for r in rechecks {
             let seed = case_seed(batch_seed, *r);
+            file.flush().unwrap();
+            watch_begin(*r, seed);
             let rec = scn.run_case(seed, tier);
+            watch_end();
             writeln!(file, "{}", json!({"recheck": r, "log": format!("{:016x}", rec.log_hash), "harness": rec.harness_error})).unwrap();
         }
     }
@@ -282,6 +335,7 @@ pub fn check_main(scn: &dyn Scenario, prop_arg: &str, opts: &CheckOptions) -> i3
     let mut recheck_logs: Vec<(u64, String)> = vec![];
     let mut harness_errors: Vec<String> = vec![];
     let mut retired = 0u64;
+    let mut hung_cases = 0u64;
     let mut timed_out = false;
     let mut worker_wall = 0.0f64;
     let mut arena_peak = 0u64;
@@ -310,6 +364,21 @@ pub fn check_main(scn: &dyn Scenario, prop_arg: &str, opts: &CheckOptions) -> i3
                 worker_wall += v["wall_s"].as_f64().unwrap_or(0.0);
                 arena_peak = arena_peak.max(v["arena_peak"].as_u64().unwrap_or(0));
             }
+        }
+        let hung: Option<Value> = std::fs::read_to_string(format!("{out}.hung")).ok().and_then(|t| serde_json::from_str(&t).ok());
+        if let Some(h) = hung.filter(|_| !done_seen) {
+            let (i, seed, secs) = (h["hung_at"].as_u64().unwrap_or(0), h["seed"].as_u64().unwrap_or(0), h["after_s"].as_u64().unwrap_or(0));
+            hung_cases += 1;
+            // a synthetic record: the case is a violation of the property it was exploring (nothing came back)
+            records.entry(i).or_insert_with(|| {
+                json!({"i": i, "seed": seed, "log": "hung", "evals": 1, "num": {"liveness.cases_without_return": 1},
+                    "issues": [{"prop": prop, "rule": "no-return", "sig": "", "msg": format!("the case did not return within {secs} s of wall time (normal cost of a case: milliseconds): livelock or unbounded work in the code under test")}]})
+            });
+            if attempt < 50 {
+                let (c, o) = spawn(w, i + jobs as u64, &[], attempt + 1);
+                children.push((w, attempt + 1, c, o));
+            }
+            continue;
         }
         if let Some(r) = retire_at {
             retired += 1;
@@ -405,11 +474,19 @@ pub fn check_main(scn: &dyn Scenario, prop_arg: &str, opts: &CheckOptions) -> i3
             continue;
         }
         let doc = scn.materialise(*seed, opts.tier);
-        let doc = scn.minimise(doc, &iss.rule);
-        let check = scn.replay(&doc);
-        let mut doc = doc;
-        doc["expect"] = json!({ "property": prop, "rule": iss.rule, "message": iss.msg, "log": format!("{:016x}", check.log_hash),
-            "reproduced_after_minimisation": check.issues.iter().any(|x| x.rule == iss.rule && x.prop == prop) });
+        let mut doc = if iss.rule == "no-return" {
+            // replaying would not return either: the replay command runs under the same watchdog
+            let mut doc = doc;
+            doc["expect"] = json!({ "property": prop, "rule": iss.rule, "message": iss.msg, "log": "hung", "reproduced_after_minimisation": Value::Null });
+            doc
+        } else {
+            let doc = scn.minimise(doc, &iss.rule);
+            let check = scn.replay(&doc);
+            let mut doc = doc;
+            doc["expect"] = json!({ "property": prop, "rule": iss.rule, "message": iss.msg, "log": format!("{:016x}", check.log_hash),
+                "reproduced_after_minimisation": check.issues.iter().any(|x| x.rule == iss.rule && x.prop == prop) });
+            doc
+        };
         doc["origin"] = json!({ "verif_seed": opts.seed, "case_index": idx, "case_seed": seed, "tier": opts.tier.name() });
         let path = format!("{}/replays/{}-{}-{}.json", opts.verif_dir, prop, opts.seed, idx);
         std::fs::write(&path, serde_json::to_string_pretty(&doc).unwrap()).expect("cannot write replay");
@@ -456,7 +533,7 @@ pub fn check_main(scn: &dyn Scenario, prop_arg: &str, opts: &CheckOptions) -> i3
             "simulated_seconds": (sim_ns as f64) / 1e9,
             "runs_per_hour": if wall > 0.0 { (evaluations as f64 / wall * 3600.0) as u64 } else { 0 },
             "determinism": { "cases_rerun_in_another_process": recheck_logs.len(), "mismatches": recheck_mismatch },
-            "workers": { "processes": jobs, "retired_for_arena_leak": retired, "timed_out": timed_out, "cpu_seconds": worker_wall, "arena_peak_bytes": arena_peak },
+            "workers": { "processes": jobs, "retired_for_arena_leak": retired, "cases_without_return": hung_cases, "case_wall_limit_s": case_limit_s(opts.tier), "timed_out": timed_out, "cpu_seconds": worker_wall, "arena_peak_bytes": arena_peak },
             "counters": nest(&counters),
             "violations_by_rule": by_rule,
             "violation_examples": examples,
